@@ -1,9 +1,239 @@
 import PestModel.Model.Lower
-/-! # C02 — placeholder until the theorems land. -/
+import PestModel.Lemmas.GenVm
+/-!
+# C02 — the generated parser and the interpreting VM agree
+
+`Lower.genRule`/`genExpr` is `pest_generator::generator::{generate_rule, generate_expr,
+generate_expr_atomic}` (tied to the real generator by tree equality of the emitted code, G lines);
+`Lower.vmRule`/`vmExpr` is `pest_vm::Vm::{parse_rule, parse_expr}` (tied by the V lines). Both are call
+trees over the same `ParserState` model. The theorem: for every rule set, start rule and input the two
+produce the same report — the same token queue on success, the same error position and the same
+expected / unexpected rule sets on failure, a panic exactly when the other panics.
+
+## Result
+
+The statement as first written (`GenEqVmStmt`, every list of optimized rules) is FALSE of the model, in two
+ways (three concrete parses, all confirmed by evaluation of both back-ends):
+
+* **node tags on `?` / `*`** (`gen_eq_vm_refuted`, `gen_eq_vm_refuted_tag_rep`): `generate_expr` special-cases
+  `#t = e?` and `#t = e*` (`state.optional(|s| e.and_then(tag))`, tag inside the repetition) while the VM
+  evaluates `NodeTag` generically (`parse_expr(e).and_then(tag)`). With `a = { "a" }  r = { a ~ #t = "b"? }` on
+  `"a"` the VM tags the pair of `a` (the `?` matched nothing, `tag_node` tags the last token of the queue),
+  the generated parser tags nothing. With `r = { #t = a* }` on `"aaa"` the VM tags only the last `a`, the
+  generated parser the second and the third. The front-end produces such rule sets (with `grammar-extras`;
+  `cexTagOpt_optimized`).
+* **a dirty failure inside an atomic repetition** (`gen_eq_vm_refuted_pop`, `gen_vm_terminate_refuted`):
+  `generate_expr_atomic` lowers `e*` to `state.repeat(|s| e)`, the VM to
+  `sequence(optional(e ~ repeat(sequence(skip ~ e))))`; the VM's per-iteration `sequence` restores the stack
+  when an iteration fails, the generated code does not. With `r = @{ PUSH("a") ~ PUSH("b") ~ POP* ~ PEEK }` on
+  `"abbx"` the failing second `POP` leaves the stack empty in the generated parser (`PEEK` then panics) but
+  `["a"]` in the VM (ordinary parsing error); with `… ~ POP* ~ PEEK_ALL*` the generated parser loops forever
+  and the VM terminates. The real front-end never produces such a rule set: its restorer pass rewrites
+  `POP*` to `restore_on_err(POP)*` (`rulesOK_of_optimized`, by C01's `goodRules_of_optimized`).
+
+The strongest true variants proved here: `gen_eq_vm_partial` / `gen_vm_terminate_partial`, for every rule
+set satisfying `GenVm.RulesOK`:
+* fewer than 333 333 334 rules (so that the model's `undefinedRule = call 1000000000` is out of range);
+* no `#t = e?` and no `#t = e*` (`GenVm.TagPlain`);
+* in the rules lowered with `generate_expr_atomic` (`@`, `$`, and rules named `WHITESPACE`/`COMMENT`) the
+  operand of every `*` is not `VmRef.Dirty` (cannot fail after `POP`/`POP_ALL`) (`GenVm.RepClean`).
+No restriction on `detail`, `memchr`, the start rule, unusual types of `WHITESPACE`/`COMMENT`, undefined
+identifiers, or the remaining node tags. `gen_eq_vm_optimized` instantiates them for the output of the
+optimizer.
+-/
 namespace PestModel.C02
-open PestModel.Lower PestModel.G
+open PestModel.Lower PestModel.G PestModel.PS
+open PestModel.LineCol (Str)
 
 /-- the generator's flattening of right-nested sequences. -/
 theorem smoke : seqItems (.seq (.str ['a']) (.seq (.str ['b']) (.str ['c']))) = [.str ['a'], .str ['b'], .str ['c']] := rfl
+
+/-- a whole parse with back-end `b` (no call limit). -/
+def parseWith (b : Backend) (rs : List ORule) (uni : String → Option CharSet) (memchr detail : Bool) (fuel : Nat)
+    (name : String) (input : Str) : Out :=
+  let env : Env := { rules := rs, uni }
+  run { memchr, env := lowerAll b env } fuel (entry env name) (PState.new input none detail)
+
+/-- what the caller of `parse` sees: the report, or `none` for a panic. -/
+def outcome (o : Out) : Option Report := finish o
+
+/-- **The two back-ends agree** (full statement): whenever both runs are definite (enough fuel), they
+yield the same report. -/
+def GenEqVmStmt : Prop :=
+  ∀ (rs : List ORule) (uni : String → Option CharSet) (memchr detail : Bool) (fv fg : Nat) (name : String) (input : Str),
+    parseWith .vm rs uni memchr detail fv name input ≠ .fuel →
+    parseWith .gen rs uni memchr detail fg name input ≠ .fuel →
+    outcome (parseWith .vm rs uni memchr detail fv name input) = outcome (parseWith .gen rs uni memchr detail fg name input)
+
+/-- … and one terminates iff the other does. -/
+def GenVmTerminateStmt : Prop :=
+  ∀ (rs : List ORule) (uni : String → Option CharSet) (memchr detail : Bool) (name : String) (input : Str),
+    (∃ f, parseWith .vm rs uni memchr detail f name input ≠ .fuel) ↔
+    (∃ f, parseWith .gen rs uni memchr detail f name input ≠ .fuel)
+
+/-! ## The partial forms -/
+
+/-- **The two back-ends agree** on every rule set satisfying `GenVm.RulesOK`. -/
+theorem gen_eq_vm_partial (rs : List ORule) (hok : GenVm.RulesOK rs) (uni : String → Option CharSet)
+    (memchr detail : Bool) (fv fg : Nat) (name : String) (input : Str)
+    (hv : parseWith .vm rs uni memchr detail fv name input ≠ .fuel)
+    (hg : parseWith .gen rs uni memchr detail fg name input ≠ .fuel) :
+    outcome (parseWith .vm rs uni memchr detail fv name input) =
+      outcome (parseWith .gen rs uni memchr detail fg name input) :=
+  GenVm.agree (env := { rules := rs, uni }) (memchr := memchr) hok name input detail fv fg hv hg
+
+/-- … and one terminates iff the other does. -/
+theorem gen_vm_terminate_partial (rs : List ORule) (hok : GenVm.RulesOK rs) (uni : String → Option CharSet)
+    (memchr detail : Bool) (name : String) (input : Str) :
+    (∃ f, parseWith .vm rs uni memchr detail f name input ≠ .fuel) ↔
+    (∃ f, parseWith .gen rs uni memchr detail f name input ≠ .fuel) :=
+  GenVm.terminate_iff (env := { rules := rs, uni }) (memchr := memchr) hok name input detail
+
+/-- **Rule sets the front-end produces**: for the output of the optimizer (node tags only with
+`grammar-extras`, none of them on `?`/`*`), both statements hold — the restorer pass makes the operand of
+every `*` fail clean. -/
+theorem gen_eq_vm_optimized (extras : Bool) (rs : List ORule)
+    (hopt : ∃ rules withList, optimizeWith extras withList rules = some rs)
+    (htagx : ∀ r ∈ rs, VmRef.tagsExtras extras r.expr) (hsize : rs.length ≤ 333333333)
+    (htag : ∀ r ∈ rs, GenVm.TagPlain r.expr)
+    (uni : String → Option CharSet) (memchr detail : Bool) (name : String) (input : Str) :
+    (∀ fv fg, parseWith .vm rs uni memchr detail fv name input ≠ .fuel →
+      parseWith .gen rs uni memchr detail fg name input ≠ .fuel →
+      outcome (parseWith .vm rs uni memchr detail fv name input) =
+        outcome (parseWith .gen rs uni memchr detail fg name input)) ∧
+    ((∃ f, parseWith .vm rs uni memchr detail f name input ≠ .fuel) ↔
+     (∃ f, parseWith .gen rs uni memchr detail f name input ≠ .fuel)) := by
+  have hok := GenVm.rulesOK_of_optimized extras rs hopt htagx hsize htag
+  exact ⟨fun fv fg => gen_eq_vm_partial rs hok uni memchr detail fv fg name input,
+    gen_vm_terminate_partial rs hok uni memchr detail name input⟩
+
+/-- grammars without node tags at all. -/
+theorem tagPlain_of_noTag : ∀ e : OExpr, VmRef.noTag e = true → GenVm.TagPlain e := by
+  intro e
+  induction e with
+  | nodeTag e t _ => intro h; simp [VmRef.noTag] at h
+  | seq a b iha ihb | choice a b iha ihb =>
+    intro h
+    simp only [VmRef.noTag, Bool.and_eq_true] at h
+    exact ⟨iha h.1, ihb h.2⟩
+  | posPred e ih | negPred e ih | opt e ih | rep e ih | repOnce e ih | push e ih | restoreOnErr e ih =>
+    intro h; exact ih (by simpa [VmRef.noTag] using h)
+  | _ => intro _; trivial
+
+/-! ## Refutations of the full statements -/
+
+theorem ne_fuel_of_outcome {o : Out} {r : Report} (h : outcome o = some r) : o ≠ .fuel := by
+  intro hf; rw [hf] at h; cases h
+
+/-- `a = { "a" }  r = { a ~ #t = "b"? }`. -/
+def cexTagOptSrc : List Rule :=
+  [⟨"a", .normal, .str ['a']⟩, ⟨"r", .normal, .seq (.ident "a") (.nodeTag (.opt (.str ['b'])) ['t'])⟩]
+
+def cexTagOpt : List ORule :=
+  [⟨"a", .normal, .str ['a']⟩, ⟨"r", .normal, .seq (.ident "a") (.nodeTag (.opt (.str ['b'])) ['t'])⟩]
+
+/-- the front-end (with `grammar-extras`) produces this rule set. -/
+theorem cexTagOpt_optimized : optimizeWith true true cexTagOptSrc = some cexTagOpt := by decide
+
+theorem cexTagOpt_vm : outcome (parseWith .vm cexTagOpt (fun _ => none) false false 8 "r" ['a']) =
+    some (.success [.start 3 0, .start 2 0, .end_ 1 0 (some ['t']) 1, .end_ 0 1 none 1]) := by decide +kernel
+
+theorem cexTagOpt_gen : outcome (parseWith .gen cexTagOpt (fun _ => none) false false 8 "r" ['a']) =
+    some (.success [.start 3 0, .start 2 0, .end_ 1 0 none 1, .end_ 0 1 none 1]) := by decide +kernel
+
+/-- **Refutation 1** (`#t = e?`): the VM tags the preceding pair, the generated parser does not. -/
+theorem gen_eq_vm_refuted : ¬ GenEqVmStmt := by
+  intro h
+  have := h cexTagOpt (fun _ => none) false false 8 8 "r" ['a'] (ne_fuel_of_outcome cexTagOpt_vm)
+    (ne_fuel_of_outcome cexTagOpt_gen)
+  rw [cexTagOpt_vm, cexTagOpt_gen] at this
+  exact absurd this (by decide)
+
+/-- `a = { "a" }  r = { #t = a* }`. -/
+def cexTagRep : List ORule :=
+  [⟨"a", .normal, .str ['a']⟩, ⟨"r", .normal, .nodeTag (.rep (.ident "a")) ['t']⟩]
+
+theorem cexTagRep_vm : outcome (parseWith .vm cexTagRep (fun _ => none) false false 16 "r" ['a', 'a', 'a']) =
+    some (.success [.start 7 0, .start 2 0, .end_ 1 0 none 1, .start 4 1, .end_ 3 0 none 2, .start 6 2,
+      .end_ 5 0 (some ['t']) 3, .end_ 0 1 none 3]) := by decide +kernel
+
+theorem cexTagRep_gen : outcome (parseWith .gen cexTagRep (fun _ => none) false false 16 "r" ['a', 'a', 'a']) =
+    some (.success [.start 7 0, .start 2 0, .end_ 1 0 none 1, .start 4 1, .end_ 3 0 (some ['t']) 2, .start 6 2,
+      .end_ 5 0 (some ['t']) 3, .end_ 0 1 none 3]) := by decide +kernel
+
+/-- **Refutation 2** (`#t = e*`): the generated parser tags every iteration but the first, the VM the last. -/
+theorem gen_eq_vm_refuted_tag_rep : ¬ GenEqVmStmt := by
+  intro h
+  have := h cexTagRep (fun _ => none) false false 16 16 "r" ['a', 'a', 'a'] (ne_fuel_of_outcome cexTagRep_vm)
+    (ne_fuel_of_outcome cexTagRep_gen)
+  rw [cexTagRep_vm, cexTagRep_gen] at this
+  exact absurd this (by decide)
+
+/-- `r = @{ PUSH("a") ~ PUSH("b") ~ POP* ~ PEEK }` (not an output of the optimizer: the restorer would wrap
+`POP`). -/
+def cexPop : List ORule :=
+  [⟨"r", .atomic, .seq (.push (.str ['a'])) (.seq (.push (.str ['b'])) (.seq (.rep (.ident "POP")) (.ident "PEEK")))⟩]
+
+theorem cexPop_vm : outcome (parseWith .vm cexPop (fun _ => none) false false 18 "r" ['a', 'b', 'b', 'x']) =
+    some (.parsingError 0 [0] []) := by decide +kernel
+
+def isFuel : Out → Bool
+  | .fuel => true
+  | _ => false
+
+theorem ne_fuel_of_isFuel {o : Out} (h : isFuel o = false) : o ≠ .fuel := by
+  intro hf; rw [hf] at h; cases h
+
+theorem cexPop_gen_ne : parseWith .gen cexPop (fun _ => none) false false 18 "r" ['a', 'b', 'b', 'x'] ≠ .fuel :=
+  ne_fuel_of_isFuel (by decide +kernel)
+
+theorem cexPop_gen : outcome (parseWith .gen cexPop (fun _ => none) false false 18 "r" ['a', 'b', 'b', 'x']) =
+    none := by decide +kernel
+
+/-- **Refutation 3** (dirty failure in an atomic `*`): the VM reports a parsing error, the generated parser
+panics (`peek was called on empty stack`). -/
+theorem gen_eq_vm_refuted_pop : ¬ GenEqVmStmt := by
+  intro h
+  have := h cexPop (fun _ => none) false false 18 18 "r" ['a', 'b', 'b', 'x'] (ne_fuel_of_outcome cexPop_vm)
+    cexPop_gen_ne
+  rw [cexPop_vm, cexPop_gen] at this
+  cases this
+
+/-- `r = @{ PUSH("a") ~ PUSH("b") ~ POP* ~ PEEK_ALL* }` (again not an output of the optimizer). -/
+def cexLoop : List ORule :=
+  [⟨"r", .atomic, .seq (.push (.str ['a'])) (.seq (.push (.str ['b']))
+    (.seq (.rep (.ident "POP")) (.rep (.ident "PEEK_ALL"))))⟩]
+
+theorem cexLoop_vm : outcome (parseWith .vm cexLoop (fun _ => none) false false 18 "r" ['a', 'b', 'b', 'x']) =
+    some (.success [.start 1 0, .end_ 0 0 none 3]) := by decide +kernel
+
+def loopEnv : Env := { rules := cexLoop, uni := fun _ => none }
+def loopCfg : Cfg := { memchr := false, env := lowerAll .gen loopEnv }
+def loopS0 : PState := PState.new ['a', 'b', 'b', 'x'] none false
+def loopHead : Prog :=
+  .andThen (.andThen (.stackPush (.matchString ['a'])) (.stackPush (.matchString ['b']))) (.repeat_ .stackPop)
+def loopS1 : PState := checkpoint (atomPre .atomic (rulePre loopS0))
+/-- after `PUSH("a") ~ PUSH("b") ~ POP*` in the generated parser: the failed second `POP` was not undone,
+the stack is empty. -/
+def loopS2 : PState := VmRef.okSt (run loopCfg 10 loopHead loopS1)
+
+theorem loopS2_stack : loopS2.stack.cache = [] := by decide +kernel
+
+/-- on the empty stack `PEEK_ALL` succeeds without consuming: `PEEK_ALL*` never ends. -/
+theorem cexLoop_gen_diverges : VmRef.Div loopCfg (entry loopEnv "r") loopS0 := by
+  refine VmRef.div_call
+    (p := .rule 0 (.atomic .atomic (.sequence (.andThen loopHead (.repeat_ .stackMatchPeek))))) rfl ?_
+  refine GenVm.div_rule rfl ?_
+  refine GenVm.div_atomic rfl ?_
+  refine VmRef.div_sequence rfl ?_
+  refine VmRef.div_andThen_right (s1 := loopS2) ⟨10, rfl⟩ ?_
+  exact VmRef.div_repeat rfl (VmRef.div_repLoop ⟨5, rfl⟩)
+
+/-- **Refutation of the termination statement**: the VM terminates, the generated parser does not. -/
+theorem gen_vm_terminate_refuted : ¬ GenVmTerminateStmt := by
+  intro h
+  obtain ⟨f, hf⟩ := (h cexLoop (fun _ => none) false false "r" ['a', 'b', 'b', 'x']).1
+    ⟨18, ne_fuel_of_outcome cexLoop_vm⟩
+  exact hf (cexLoop_gen_diverges f)
 
 end PestModel.C02
